@@ -5,7 +5,7 @@ from .. import core, values
 
 ID = 'C14'
 LEVEL = 'fault_enumeration'
-RULE = ('case = (tree (nodes also held by struct sequences, namedtuples, deques, namespaces and OrderedDicts) of instrumented objects FNode/FNode2/FLazySub/FDictNode (FDictNode: a dict subclass with the built-in repr; FReprNode: __repr__ = pretty_repr; FObjNode: the printer is a callable object, not a function; FNode2: printer without trailing_comment; FLazySub: printer '
+RULE = ('case = (tree (nodes also held by struct sequences, namedtuples, deques, namespaces and OrderedDicts) of instrumented objects FNode/FNode2/FLazySub/FDictNode (FDictNode: a dict subclass with the built-in repr; FReprNode: __repr__ = pretty_repr; FObjNode: the printer is a callable object, not a function; FPredNode: the printer is registered through a predicate; FNode2: printer without trailing_comment; FLazySub: printer '
         'registered by name for its base class, exception messages contain braces and percent signs) mixed with lists, '
         'tuples, dict values, comments, trailing comments and second references to already printed nodes (sharing), fault plan). Fault enumeration: for every ordered tree shape '
         'with <= 5 instrumented nodes x 4 edge-wrapper patterns x 3 class patterns, each node in turn (= each printer '
@@ -36,9 +36,9 @@ def build(r, nodes, done=None):
     if done is None:
         done = []
     t = r[0]
-    if t in ('fn', 'fn2', 'fn3', 'fn4', 'fn5', 'fn6'):
+    if t in ('fn', 'fn2', 'fn3', 'fn4', 'fn5', 'fn6', 'fn7'):
         n = {'fn': faults.FNode, 'fn2': faults.FNode2, 'fn3': faults.FLazySub, 'fn4': faults.FDictNode, 'fn5': faults.FReprNode,
-             'fn6': faults.FObjNode}[t](r[1], [])
+             'fn6': faults.FObjNode, 'fn7': faults.FPredNode}[t](r[1], [])
         nodes.append(n)
         n.children = [build(c, nodes, done) for c in r[2]]
         done.append(n)
@@ -77,7 +77,7 @@ def replace(obj, victims):
     {id: repr text taken while the fault was active}"""
     from .. import faults
     from prettyprinter.prettyprinter import _CommentedValue, _TrailingCommentedValue
-    if isinstance(obj, faults.FNode):
+    if isinstance(obj, faults.FBase):
         if id(obj) in victims:
             return faults.ReprLeaf(victims[id(obj)] if isinstance(victims, dict) and isinstance(victims[id(obj)], str) else repr(obj))
         n = type(obj)(obj.tag, [replace(c, victims) for c in obj.children])
@@ -144,7 +144,7 @@ def _shapes(n):
 def _instantiate(shape, wrap_pat, kind_pat, counter):
     i = counter[0]
     counter[0] += 1
-    kind = 'fn' if kind_pat == 0 else 'fn2' if kind_pat == 1 else ('fn', 'fn3', 'fn2', 'fn4', 'fn5', 'fn6')[i % 6]
+    kind = 'fn' if kind_pat == 0 else 'fn2' if kind_pat == 1 else ('fn', 'fn3', 'fn2', 'fn4', 'fn5', 'fn6', 'fn7')[i % 7]
     kids = []
     for ch in shape:
         c = _instantiate(ch, wrap_pat, kind_pat, counter)
@@ -209,15 +209,15 @@ def strategy(tier):
         wrapped = st.one_of(ch, ch, st.tuples(st.sampled_from(['c1', 'c two words', 'x\ny']), ch).map(lambda p: ['cmt', p[0], p[1]]),
                             st.tuples(st.sampled_from(['t1', 't two']), ch).map(lambda p: ['tcmt', p[0], p[1]]))
         return st.one_of(
-            st.tuples(st.sampled_from(['fn', 'fn', 'fn2', 'fn3', 'fn4', 'fn5', 'fn6']), tags, st.lists(wrapped, max_size=3)).map(list),
-            st.tuples(st.sampled_from(['fn', 'fn', 'fn2', 'fn3', 'fn4', 'fn5', 'fn6']), tags, st.lists(wrapped, max_size=3)).map(list),
+            st.tuples(st.sampled_from(['fn', 'fn', 'fn2', 'fn3', 'fn4', 'fn5', 'fn6', 'fn7']), tags, st.lists(wrapped, max_size=3)).map(list),
+            st.tuples(st.sampled_from(['fn', 'fn', 'fn2', 'fn3', 'fn4', 'fn5', 'fn6', 'fn7']), tags, st.lists(wrapped, max_size=3)).map(list),
             st.lists(wrapped, max_size=3).map(lambda xs: ['list', xs]),
             st.lists(wrapped, max_size=2).map(lambda xs: ['tuple', xs]),
             st.tuples(st.sampled_from(['struct', 'ntuple', 'ns', 'odict']), ch).map(list),
             st.tuples(ch, st.sampled_from([None, 5])).map(lambda p: ['deque', p[0], p[1]]),
             st.lists(st.tuples(st.sampled_from(['k', 'kk', 'key three']), wrapped).map(list), max_size=3, unique_by=lambda p: p[0]).map(lambda kv: ['dict', kv]),
         )
-    tree = st.recursive(st.one_of(leaf, st.tuples(st.sampled_from(['fn', 'fn2', 'fn3', 'fn4', 'fn5', 'fn6']), tags, st.just([])).map(list)), ext, max_leaves=10)
+    tree = st.recursive(st.one_of(leaf, st.tuples(st.sampled_from(['fn', 'fn2', 'fn3', 'fn4', 'fn5', 'fn6', 'fn7']), tags, st.just([])).map(list)), ext, max_leaves=10)
     fault = st.tuples(st.integers(0, 12), st.sampled_from(EXCS), st.sampled_from(['before', 'after'])).map(list)
     nth_fault = st.tuples(st.integers(0, 12), st.sampled_from(EXCS), st.sampled_from(['before', 'after']), st.sampled_from([1, 2])).map(list)
     faulty = st.fixed_dictionaries({'tree': tree, 'faults': st.one_of(st.lists(fault, min_size=1, max_size=2), st.lists(nth_fault, min_size=1, max_size=1))})
@@ -228,7 +228,7 @@ def strategy(tier):
 def _ast_with_reprs(text):
     import ast
     import re
-    src = re.sub(r'<(FNode2?|FLazySub|FLazyBase|FObjNode) ([^<>]*)>', lambda m: '__R__(%r, %r)' % (m.group(1), m.group(2)), text)
+    src = re.sub(r'<(FNode2?|FLazySub|FLazyBase|FObjNode|FPredNode) ([^<>]*)>', lambda m: '__R__(%r, %r)' % (m.group(1), m.group(2)), text)
     src = re.sub(r'<([\w.]+) object at 0x([0-9a-f]+)>', lambda m: '__R__(%r, %r)' % (m.group(1), m.group(2)), src)
     try:
         return ast.dump(ast.parse('(' + src + '\n)', mode='eval'))
@@ -246,7 +246,7 @@ def _has_sibling(root, victim):
 
     def kids(o):
         o = unwrap_comments(o)[0]
-        if isinstance(o, faults.FNode):
+        if isinstance(o, faults.FBase):
             return [unwrap_comments(c)[0] for c in o.children] + ['tag']
         if isinstance(o, (list, tuple, _c.deque)):
             return [unwrap_comments(c)[0] for c in o]
@@ -355,7 +355,7 @@ def oracle(case):
     if (len(fw) == 0) != (ncalls == 0) or len(fw) > ncalls:
         return core.viol('warning-count', '%d fallback warnings for %d failing printer invocations' % (len(fw), ncalls), labels)
     for n in invoked:
-        name = {'FNode2': 'ppv.faults.pretty_fnode2', 'FLazySub': 'ppv.faults.pretty_flazy', 'FDictNode': 'ppv.faults.pretty_fdict', 'FReprNode': 'ppv.faults.pretty_freprnode', 'FObjNode': 'ppv.faults.ObjPrinter'}.get(type(n).__name__, 'ppv.faults.pretty_fnode')
+        name = {'FNode2': 'ppv.faults.pretty_fnode2', 'FLazySub': 'ppv.faults.pretty_flazy', 'FDictNode': 'ppv.faults.pretty_fdict', 'FReprNode': 'ppv.faults.pretty_freprnode', 'FObjNode': 'ppv.faults.ObjPrinter', 'FPredNode': 'ppv.faults.pretty_fpred'}.get(type(n).__name__, 'ppv.faults.pretty_fnode')
         if not any(name + ',' in w or name + ' ' in w or name in w.split() for w in fw) and not any(name in w for w in fw):
             return core.viol('warning-does-not-name-printer', fw[0][:300], labels)
     again = values.pp(root, width=60)
